@@ -219,6 +219,8 @@ def ghost_env(bound):
         "trail_top": lambda e: (list(get_trail(e)) or [Undefined()])[0],
         "has_key": lambda d, k: _hashable(k) and k in d,
         "forall_val": None,
+        "issub": lambda c, b: isinstance(c, type) and issubclass(c, b),
+        "errcls": lambda f, x: f.exc_cls,
         "contains": lambda coll, x: any(_eq(x, c) and True for c in coll),
         "same_items": lambda a, b: type(a) is tuple and list(a) == _elems_of(b),
         "err_rank": lambda e: 2 * getattr(e, "_stub_call_index", -10 ** 6) + (0 if isinstance((list(get_trail(e)) or [None])[0], _itemkey()) else 1),
@@ -336,7 +338,8 @@ def scenarios(c, label, limit=None, seed=0):
     for iname, ifac, combo in out:
         stubs = {}
         for n, (rn, rf) in zip(names, combo):
-            stubs[n] = (StubDumper if kinds[n] == "DUMP" else StubLoader)(n, rf)
+            stubs[n] = (StubDumper if kinds[n] in ("DUMP", "ANY") and (kinds[n] == "DUMP" or rn in ("second", "ge2", "str"))
+                        else StubLoader)(n, rf)
             if c.stubs and "result" in c.stubs:
                 stubs[n].result_fn = c.stubs["result"]
         yield Scenario(label, iname, ifac, stubs, {n: rn for n, (rn, _) in zip(names, combo)})
